@@ -330,6 +330,9 @@ def attrKind (mm : MM) (g : Graph) (par : Id) (attr : Str) : AttrKind :=
 def Creator.classFor (mm : MM) : Creator → Option Str → Except Err Str
   | .cannot, _ => .error .typeError
   | .other _, _ => .error .typeError
+  -- `if typehint:` — an empty hint counts as none
+  | .xtype (some d), some [] => .ok d
+  | .xtype none, some [] => .error .valueError
   | .xtype _, some h => match mm.hint h with
     | some c => .ok c
     | none => .error .valueError
